@@ -114,7 +114,7 @@ def run(rep, tier):
                       payload=rj)
     nobj = len([x for x in recs if x["e"] == "Get"])
     nparam = len([x for x in recs if x["e"] == "Param"])
-    if nobj < 100 or nparam < 250:
+    if not rep.violations and (nobj < 100 or nparam < 250):
         raise CheckError("factory sweep too small: %d objects, %d parameters" % (nobj, nparam))
     rep.add(traces_validated_against_impl=accepted, factory_objects=nobj, factory_parameters=nparam)
     rep.sample({"sweep": [x for x in recs[:9]]})
